@@ -197,6 +197,36 @@ static void run_storm(uint64_t seed, tscript *t, int tid, vh_rng *yr)
     }
 }
 
+/* ---------- key-setup storm (W4): every thread sets up its own key schedules in a tight loop ---------- */
+static void run_keys(uint64_t seed, tscript *t, int tid, vh_rng *yr)
+{
+    vh_rng r; int i; uint8_t key[64], tw[16], in[16], out[32];
+    Skinny128Key_t k128; Skinny64Key_t k64; Skinny128TweakedKey_t t128; Skinny64TweakedKey_t t64; MantisKey_t mk;
+    vh_rng_seed(&r, seed, 0x18, 1234);
+    for (i = 0; i < 600; ++i) {
+        unsigned k = vh_below(&r, 6); int ret = 1; unsigned len;
+        vh_rand_bytes(&r, key, sizeof(key)); vh_rand_bytes(&r, tw, sizeof(tw)); vh_rand_bytes(&r, in, sizeof(in));
+        memset(out, 0, sizeof(out));
+        if (yr && (i & 63) == 0) maybe_yield(yr);
+        enter_lib(tid);
+        switch (k) {
+        case 0: len = 16 + vh_below(&r, 33); ret = skinny128_set_key(&k128, key, len); skinny128_ecb_encrypt(out, in, &k128); skinny128_ecb_decrypt(out + 16, in, &k128); break;
+        case 1: len = 8 + vh_below(&r, 17); ret = skinny64_set_key(&k64, key, len); skinny64_ecb_encrypt(out, in, &k64); skinny64_ecb_decrypt(out + 8, in + 8, &k64); break;
+        case 2: len = 16 + vh_below(&r, 17); ret = skinny128_set_tweaked_key(&t128, key, len); ret &= skinny128_set_tweak(&t128, tw, 1 + vh_below(&r, 16));
+                skinny128_ecb_encrypt(out, in, &t128.ks); ret &= skinny128_set_tweak(&t128, tw + 3, 1 + vh_below(&r, 13)); skinny128_ecb_encrypt(out + 16, in, &t128.ks); break;
+        case 3: len = 8 + vh_below(&r, 9); ret = skinny64_set_tweaked_key(&t64, key, len); ret &= skinny64_set_tweak(&t64, tw, 1 + vh_below(&r, 8));
+                skinny64_ecb_encrypt(out, in, &t64.ks); ret &= skinny64_set_tweak(&t64, tw + 3, 1 + vh_below(&r, 8)); skinny64_ecb_encrypt(out + 8, in, &t64.ks); break;
+        case 4: ret = mantis_set_key(&mk, key, 16, 5 + vh_below(&r, 4), (int)vh_below(&r, 2)); ret &= mantis_set_tweak(&mk, tw, 8); mantis_ecb_crypt(out, in, &mk);
+                mantis_swap_modes(&mk); mantis_ecb_crypt(out + 8, in, &mk); mantis_ecb_crypt_tweaked(out + 16, in + 8, tw + 8, &mk); break;
+        default: { const vh_cipher *c = &vh_ciphers[vh_below(&r, CIPH_N)]; vh_handle h; memset(&h, 0, sizeof(h));
+                len = c->bb * (1 + vh_below(&r, c->id == 2 ? 1 : 2)) + (c->id == 2 ? c->bb : vh_below(&r, c->bb + 1));
+                ret = c->ctr_init(&h); if (ret) { int r2 = c->ctr_set_key(&h, key, len, 7); ret = r2 + 2; if (r2) c->ctr_encrypt(out, in, 16, &h); c->ctr_cleanup(&h); } break; }
+        }
+        leave_lib();
+        ts_ret(t, ret); ts_put(t, out, 32);
+    }
+}
+
 /* ---------- orchestration ---------- */
 typedef struct { int tid; uint64_t seed; int workload; int bulk; chist *ch; phist *ph; tscript got, want; vh_rng yr; } targ;
 static targ TA[NT_MAX];
@@ -207,7 +237,8 @@ static void work(targ *a, tscript *t, int threaded)
     switch (a->workload) {
     case 0: run_ctr(a->ch, t, a->tid, yr); run_par(a->ph, t, a->tid, yr); if (a->bulk) run_bulk(a->seed, t, a->tid, yr, 0); break;
     case 1: run_shared(a->seed, t, a->tid, yr); if (a->bulk) run_bulk(a->seed + (uint64_t)a->tid * 7919, t, a->tid, yr, 1); break;
-    default: run_storm(a->seed, t, a->tid, yr); break;
+    case 2: run_storm(a->seed, t, a->tid, yr); break;
+    default: run_keys(a->seed, t, a->tid, yr); break;
     }
 }
 static void *thread_main(void *p)
@@ -226,7 +257,7 @@ int main(int argc, char **argv)
 {
     uint64_t rep, reps; int i, control;
     pthread_t th[NT_MAX];
-    static const char *const wname[3] = {"distinct-objects", "shared-read-only-objects", "init-cleanup-storm"};
+    static const char *const wname[4] = {"distinct-objects", "shared-read-only-objects", "init-cleanup-storm", "key-setup-storm"};
     vh_init(argc, argv);
     NT = atoi(vh_getarg("threads", "16")); if (NT > NT_MAX) NT = NT_MAX;
     control = atoi(vh_getarg("control", "0"));
@@ -268,7 +299,7 @@ int main(int argc, char **argv)
     for (i = 0; i < CIPH_N; ++i) { maxbe[i] = vh_max_backend(&vh_ciphers[i]); if (maxbe[i] < 0) { printf("{\"type\":\"inconclusive\",\"reason\":\"cannot identify back end\"}\n"); return 2; } }
     for (i = 0; i < NT; ++i) { TA[i].ch = malloc(sizeof(chist)); TA[i].ph = malloc(sizeof(phist)); TA[i].got.cap = TA[i].want.cap = 1 << 18; TA[i].got.out = malloc(1 << 18); TA[i].want.out = malloc(1 << 18); }
     for (rep = vh_first + vh_shard; rep < vh_first + reps; rep += vh_nshards) {
-        int workload = (int)(rep % 3), cap = (int)((rep / 3) % 3);
+        int workload = (int)(rep % 4), cap = (int)((rep / 4) % 3);
         vh_rng r; uint64_t hh = VH_HASH_INIT;
         vh_rng_seed(&r, vh_seed, 0x18, rep);
         vh_set_cap(cap);                                   /* written only here, before the threads exist */
